@@ -14,10 +14,12 @@ import (
 
 	"verifharness/internal/isolate"
 	"verifharness/piecestore"
+	"verifharness/wire"
 )
 
 var bindings = map[string]func(in []byte) any{
 	"piecestore": piecestore.Replay,
+	"wire":       wire.Handle,
 }
 
 func main() {
